@@ -23,7 +23,7 @@ OUTPUT = "DecodeGen.v"
 ITEMS = ["dg_window_min", "dg_window_max", "dg_max_members", "dg_unlimited", "dg_window_next", "dg_budget",
          "dg_budget_spent", "dg_too_many_members", "dg_gzip_reset", "dg_max_length", "dg_sniff_raw",
          "dg_remaining", "dg_needs_input_clears_pause", "dg_wait_checks_exception", "dg_close_keeps_pending_parser", "dg_low", "dg_high", "dg_highc", "dg_lowc", "dg_feed_pause", "dg_chunk_pause",
-         "dg_resume_size", "dg_resume_when_empty", "dg_resume_chunks", "dg_split_stale", "dg_raises", "dg_raise_low", "dg_raise_high",
+         "dg_resume_not_eof", "dg_resume_size", "dg_resume_when_empty", "dg_resume_chunks", "dg_split_stale", "dg_raises", "dg_raise_low", "dg_raise_high",
          "dg_too_large", "dg_maxsize"]
 
 CU = "aiohttp/compression_utils.py"
@@ -260,10 +260,18 @@ def generate() -> str:
     fn = core.find_function(ST, "_read_nowait_chunk", cls=C)
     g = _one(_guarded_calls(fn, "_protocol", "resume_reading"), "_read_nowait_chunk resume test")
     rt = g.test
+    # b336e09: `not self._eof and (...) and (...)`; older shape: two conjuncts
+    not_eof = False
+    if isinstance(rt, ast.BoolOp) and isinstance(rt.op, ast.And) and len(rt.values) == 3:
+        if ast.dump(rt.values[0]) != _dump("not self._eof"):
+            raise TranslatorError("_read_nowait_chunk: resume test has three conjuncts but the first is not `not self._eof`")
+        not_eof = True
+        rt = ast.BoolOp(op=ast.And(), values=rt.values[1:])
     if not (isinstance(rt, ast.BoolOp) and isinstance(rt.op, ast.And) and len(rt.values) == 2
             and isinstance(rt.values[1], ast.BoolOp) and isinstance(rt.values[1].op, ast.Or) and len(rt.values[1].values) == 2
             and ast.dump(rt.values[1].values[0]) == _dump("self._http_chunk_splits is None")):
-        raise TranslatorError("_read_nowait_chunk: resume test is not `a and (splits is None or b)`")
+        raise TranslatorError("_read_nowait_chunk: resume test is not `[not eof and] a and (splits is None or b)`")
+    out.append(f"(* `not self._eof and` present in the resume test *)\nDefinition dg_resume_not_eof : bool := {'true' if not_eof else 'false'}.")
     first = rt.values[0]
     when_empty = False
     if isinstance(first, ast.BoolOp):      # `(self._size < self._low_water or not self._buffer)`
